@@ -4,7 +4,10 @@
 (* driver offers keys and values (ascending and not, through Add and through  *)
 (* the stream writer), reads everything back through the reader cache, merged *)
 (* iterators and kv snapshots, and logs what the real code answered; TLC      *)
-(* takes a step only if the answers equal the reference.                      *)
+(* takes a step only if the answers equal the reference.  Histories of mode   *)
+(* "levels" put several files with overlapping / nested / identical key       *)
+(* ranges into levels 1 and 2 (edit log; real flushes + level-0 compactions)  *)
+(* and repeat every lookup (the files of a level sit in a map).               *)
 EXTENDS TableFile, Json
 
 Trace == ndJsonDeserialize("trace.ndjson")
@@ -27,13 +30,19 @@ TMerged == Ev("Merged") /\ Merged(Line.ts, Line.ks, Line.vs)
 TFlushed == Ev("Flushed") /\ Flushed(Line.f, Line.puts, Line.min, Line.max)
 TFound == Ev("Found") /\ Found(Line.k, Line.fs)
 TLoaded == Ev("Loaded") /\ Loaded(Line.k, Line.vs)
+\* levels (histories of mode "levels"): edit-log installs / removals, level listing, level-0 compactions
+TInstalled == Ev("Installed") /\ Installed(Line.f, Line.t, Line.lvl, Line.min, Line.max)
+TRemoved == Ev("Removed") /\ Removed(Line.f)
+TListed == Ev("Listed") /\ Listed(Line.files)
+TCompacted == Ev("Compacted") /\ Len(Line.ins) = Cardinality(ToSet(Line.ins)) /\ Compacted(ToSet(Line.ins), Line.outs)
+TMoved == Ev("Moved") /\ Moved(Line.f)
 TBigBuilt == Ev("BigBuilt") /\ BigBuilt(Line.t, Line.cnt, Line.pal, Line.samp, Line.proj)
 TBigGet == Ev("BigGet") /\ BigGet(Line.t, Line.i, Line.k, Line.found, Line.vi, Line.vp)
 TBigAbsent == Ev("BigAbsent") /\ BigAbsent(Line.t, Line.found)
 TBigIterated == Ev("BigIterated") /\ BigIterated(Line.t, Line.count, Line.rows)
 
 TraceNext == TReset \/ TCreate \/ TOffered \/ TClose \/ TOpen \/ TGet \/ TIterate \/ TMerged
-             \/ TFlushed \/ TFound \/ TLoaded \/ TBigBuilt \/ TBigGet \/ TBigAbsent \/ TBigIterated
+             \/ TFlushed \/ TFound \/ TLoaded \/ TInstalled \/ TRemoved \/ TListed \/ TCompacted \/ TMoved \/ TBigBuilt \/ TBigGet \/ TBigAbsent \/ TBigIterated
 TraceSpec == TraceInit /\ [][TraceNext]_tvars
 
 \* invariants of the reference state reached through the real history
